@@ -1,15 +1,21 @@
 #!/bin/bash
-# seeded_check.sh <patch.diff> <ID> [tier]: apply a seeded change to /repo, run the pinned tests and the check, undo it.
+# seeded_check.sh <patch.diff> <ID> [tier]: apply a seeded change to the repository (VERIF_REPO, default /repo), run the
+# pinned tests and the check, undo it.
 export GOFLAGS=-mod=mod GOPROXY=off GOSUMDB=off GOTOOLCHAIN=local
+V=${VERIF_DIR:-/verif}
+R=${VERIF_REPO:-/repo}
+export VERIF_DIR=$V VERIF_REPO=$R
 patch=$1; id=$2; tier=${3:-quick}
-cd /repo || exit 2
+out=$(mktemp "$V/.cache/seeded_out.XXXXXX")
+cd "$R" || exit 2
 git checkout -- . ; git clean -fdq -- internal cmd; git apply "$patch" || { echo "PATCH DOES NOT APPLY"; exit 2; }
 if ! go build ./... ; then echo "DOES NOT COMPILE"; git checkout -- .; exit 2; fi
 t=$(go test -mod=mod -vet=off -count=1 ./... 2>&1 | grep -v "no test files" | grep -v "^ok" | head -5)
 if [ -n "$t" ]; then echo "PINNED TESTS FAIL: $t"; git checkout -- .; exit 2; fi
 echo "pinned tests pass with the change"
-cd /verif && bin/check "$id" "$tier" > /tmp/seeded_out.txt 2>&1; rc=$?
-grep -E "^VIOLATION|signature|HARNESS|^$id " /tmp/seeded_out.txt | cut -c1-300 | head -8
+cd "$V" && bin/check "$id" "$tier" > "$out" 2>&1; rc=$?
+grep -E "^VIOLATION|signature|HARNESS|^$id " "$out" | cut -c1-300 | head -8
+rm -f "$out"
 echo "check exit=$rc"
-git -C /repo checkout -- . ; git -C /repo clean -fdq -- internal cmd
+git -C "$R" checkout -- . ; git -C "$R" clean -fdq -- internal cmd
 exit $rc
